@@ -11,15 +11,18 @@ m = {"version": 1, "setup_cmd": "./setup.sh",
                "enable": "RUSTFLAGS='--cfg lumina_verif' LUMINA_VERIF_DIR=/verif (native witness finders / bounded stand-ins: cargo test; Kani harnesses: cargo kani)",
                "baseline_off_cmd": "cd /repo && cargo nextest run --workspace --no-fail-fast --offline",
                "source_commits": hooks["source_commits"], "add_only": True},
-     "engines": [{"name": "vx+verus", "path": "/verif/vx", "serves_properties": sorted(claims),
+     "engines": [{"name": "kani", "path": "/verif/kani", "serves_properties": sorted(k for k in claims if claims[k].get("engine") == "kani"),
+                  "kind_free_text": "Kani 0.68 / CBMC 6.11 harnesses over full symbolic input domains, compiled into the real crate through one cfg(kani)+cfg(lumina_verif) include (kani/types/mod.rs), run by vx/check.py; loops bounded by constants of the code with unwinding assertions (complete proofs)"},
+                 {"name": "vx+verus", "path": "/verif/vx", "serves_properties": sorted(k for k in claims if claims[k].get("engine", "vx+verus") == "vx+verus"),
                   "kind_free_text": "mechanical byte-exact extraction of /repo functions (vx.py, rules E1-E16) spliced with contract overlays (specs/*.rs) into one Verus file per unit, discharged by Verus 0.2026.09.13 / Z3; canary (ensures false) vacuity guard; witness finders on the real code (native enumerators, Kani)"}],
      "checks": [], "not_applicable": []}
+m["engines"] = [e for e in m["engines"] if e["serves_properties"]]
 for p in props:
     pid = p["id"]
     if pid in claims:
         c = claims[pid]
         m["checks"].append({"property_id": pid, "quick_cmd": f"./check {pid} quick", "thorough_cmd": f"./check {pid} thorough",
-                            "evidence_file": f"/verif/evidence/{pid}.json", "replay_cmd_template": "./check --replay {path}", "engine": "vx+verus",
+                            "evidence_file": f"/verif/evidence/{pid}.json", "replay_cmd_template": "./check --replay {path}", "engine": c.get("engine", "vx+verus"),
                             "level_claimed": {"category": c.get("category", "proof"), "text": c["text"], "design_ref": f"DESIGN.md §5 {pid}"},
                             "level_note": c["note"], "technique": c.get("technique", "contract-based deductive verification (Verus) of mechanically extracted real functions")})
     else:
